@@ -1772,7 +1772,8 @@ def evidence_branches(rng, slots, foreign=None):
                 elif k == "foreign-const":
                     f = r.choice(foreign)
                     fp = f if f else ("push", 0, 1)
-                    v = r.choice(["hash3-last", "hash3-mid", "hash3-first", "hash4-last", "key-first", "value", "mem-offset"])
+                    v = r.choice(["hash3-last", "hash3-mid", "hash3-first", "hash4-last", "key-first", "value", "mem-offset",
+                                  "folded-hash-plus", "folded-hash-plus"])
                     if v.startswith("hash"):
                         words = [[4, "CALLDATALOAD"], ["CALLER"], [36, "CALLDATALOAD"]][:3 if v.startswith("hash3") else 3]
                         pos = {"hash3-last": 2, "hash3-mid": 1, "hash3-first": 0, "hash4-last": 3}[v]
@@ -1787,6 +1788,13 @@ def evidence_branches(rng, slots, foreign=None):
                             a.emit(0x80 + 0x20 * j, "MSTORE")
                         a.emit(0x20 * n, 0x80, "SHA3")
                         a.emit("SLOAD", 0, "MSTORE") if r.random() < 0.4 else a.emit(r.choice(["CALLER", "CALLVALUE"]), "SWAP1", "SSTORE")
+                    elif v == "folded-hash-plus":
+                        # a literal 256-bit key that happens to equal keccak(i) + f (or keccak(f) + i) for small i:
+                        # as a literal it is a slot of its own, not an element of anybody's array
+                        from . import keccak as _k
+                        i = r.choice([0, 1, 2, 9, 77])
+                        lit = (_k.keccak_words(i) + f) & evm.M256 if r.random() < 0.6 else (_k.keccak_words(f) + i + 1) & evm.M256
+                        a.emit(r.choice(["CALLER", "CALLVALUE", [4, "CALLDATALOAD"]]), ("push", lit, 32), "SSTORE")
                     elif v == "key-first":
                         a.emit(fp, 0, "MSTORE", sp, 0x20, "MSTORE", 0x40, 0, "SHA3", "SLOAD", 0, "MSTORE")
                     elif v == "value":
